@@ -30,7 +30,8 @@ def hash_diff_never_uploads_over_deleted_peer(w: World):
           "synced side existence is unknown again (or corrupt over unknown)")
 
 
-@lemma(props=["C02", "C03", "C04", "C12"], configs="sides", raises=["Exception"])
+@lemma(props=["C02", "C03", "C04", "C12"], configs="sides", raises=["Exception"],
+       stubs={"cloudsync.sync.manager:SyncManager._handle_dir_delete_not_empty": {"results": ["FINISHED", "PUNT"], "havoc": False}})
 def delete_synced_effects(w: World):
     """L2.1/L4.1/L3.1: propagating a deletion issues at most one provider write, a delete of the peer object
     on the synced side; afterwards the peer is tombstoned and the entry discarded"""
@@ -47,7 +48,7 @@ def delete_synced_effects(w: World):
         check(c.method == "delete", "the only write is a delete")
         check(c.side == synced, "on the synced side, never on the side where the deletion originated")
         check(c.args[0] == peer_oid and peer_oid is not None, "of the entry's own peer object")
-    if r == FINISHED and len(ws) == 1 and ws[0].ok:
+    if r == FINISHED and len(ws) == 1 and ws[0].ok and len(calls("_handle_dir_delete_not_empty")) == 0:
         check(sync[synced].exists == TRASHED or sync[synced].exists == CORRUPT, "peer is recorded as trashed")
         check(was_conflicted or sync.is_discarded, "entry is discarded")
     check(r == FINISHED or r == PUNT, "returns FINISHED or PUNT")
@@ -416,7 +417,7 @@ def get_latest_flags_unseen_changes(w: World):
         check(ent[side].hash == h0 and ent[side].path == p0, "hash and path of a vanished object are kept")
 
 
-@lemma(props=["C04", "C03", "C11"], configs="sides", raises=["Exception"])
+@lemma(props=["C04", "C03", "C11"], configs="sides", raises=["Exception"], opaque=["nps"])
 def children_follow_a_renamed_folder(w: World, prior: str, path: str, rel: str):
     """L4.4: when a folder's path changes, each child keeps its position relative to the folder: its path becomes
     join(new folder path, relative path) and its last-synced path is re-rooted the same way"""
@@ -441,3 +442,22 @@ def children_follow_a_renamed_folder(w: World, prior: str, path: str, rel: str):
     else:
         check(kid[side].sync_path == sp0, "no last-synced path: nothing to re-root")
     check(len(provider_writes()) == 0, "no provider write")
+
+
+
+@lemma(props=["C04", "C02"], configs="sides", raises=["Exception"])
+def non_empty_folder_delete_waits(w: World):
+    """L4.5: a folder whose deletion was refused because it is not empty is only reported finished after it was
+    punted at least once (priority > 0) and no known child still needs syncing; the engine itself deletes nothing here"""
+    mgr = w.mgr
+    sync = w.entry("sync")
+    changed = w.changed
+    synced = w.synced
+    p0 = sync.priority
+    r = mgr._handle_dir_delete_not_empty(sync, changed, synced)
+    check(len(provider_writes()) == 0, "no provider write")
+    check(r == FINISHED or r == PUNT, "returns FINISHED or PUNT")
+    if r == FINISHED:
+        check(p0 > 0, "finished only after having been punted at least once")
+    for c in provider_calls():
+        check(c.side == synced, "only the synced side is listed")
